@@ -6,7 +6,8 @@
     * content / no explicit defaults / shape of `fromUncompressed`  — §1
     * `uncompress (fromUncompressed n) (dims n) = n`                — §2 (full, fiber and
       tensor route, all-default nests included)
-    * dictionary and YAML round trips                                — §3 (YAML text layer abstracted)
+    * dictionary and YAML round trips                                — §3 (full; YAML text
+      layer abstracted as the identity)
     * `fromRandom`                                                   — §4
 -/
 import FtProofs.Lemmas.Convert
@@ -134,70 +135,60 @@ theorem dict_roundtrip (d : Nat) (t : Tree κ ν d) : dict2fiber d (fiber2dict d
 section
 variable [LT κ] [DecidableRel (α := κ) (· < ·)] [DecidableEq κ] [DecidableEq ν]
 
-/-- … and the rebuilt tree is `==` to the original when both sides have the same leaf
-    default.  (The dictionary carries no default: the rebuilt fibers have default 0.  Gap:
-    with a non-zero default `==` can fail, see the `example` below.) -/
-theorem dict_roundtrip_equal_partial (dflt : ν) (d : Nat) (t : Tree κ ν d) :
+/-- … and the rebuilt tree is `==` to the original, in both directions, for every default:
+    `dict2fiber(dict, default=x)` creates the fibers with the default it is given, the
+    original's. -/
+theorem dict_roundtrip_equal (dflt : ν) (d : Nat) (t : Tree κ ν d) :
     ∃ r, dict2fiber d (fiber2dict d t) = some r ∧ eqB dflt dflt d r t = true ∧ eqB dflt dflt d t r = true :=
   ⟨t, dict2fiber_fiber2dict d t, eqB_refl dflt d t, eqB_refl dflt d t⟩
 
-/-- Tensor dump → (abstracted) YAML text → `Tensor.fromYAMLfile`, PARTIAL.  If no coordinate
-    and no shape entry is a tuple, the reloaded tensor has the same rank ids, the same shape,
-    the same NAME (every rank, fix a24e1eb), the same stored tree, and compares `==` under a
-    common default.
-    Gaps w.r.t. the property: (1) tuple coordinates — `tensor_yaml_tuple_fails`;
-    (3) the default is not carried — `loadedLeafDefault`, so `==` is only claimed when the
-    original's default is the one the loader installs. -/
-theorem tensor_yaml_roundtrip_partial (plain : κ → Bool) (dflt : ν) {d : Nat} (t : TRep κ ν d)
-    (hc : allCoords plain d t.root = true) (hs : t.shape.all plain = true) :
-    ∃ r, tensorYamlRoundtrip plain t = some r ∧ r.rankIds = t.rankIds ∧ r.shape = t.shape ∧
-         r.root = t.root ∧ r.name = t.name ∧
-         tensorEqB dflt dflt r t = true ∧ tensorEqB dflt dflt t r = true := by
-  refine ⟨{ rankIds := t.rankIds, shape := t.shape, name := t.name, root := t.root },
-    ?_, rfl, rfl, rfl, rfl, ?_, ?_⟩
+/-- Tensor dump → (abstracted) YAML text → `Tensor.fromYAMLfile`, for EVERY tensor — any
+    rank (0 included), any coordinate type (tuples of flattened ranks included), any name, any
+    default: the reloaded tensor has the same rank ids, shape, name and stored tree, for rank
+    ≥ 1 the same default, and it compares `==` with the original in both directions, each
+    side under its own default. -/
+theorem tensor_yaml_roundtrip (zero : ν) {d : Nat} (t : TRep κ ν d) :
+    ∃ r, tensorYamlRoundtrip zero t = some r ∧ r.rankIds = t.rankIds ∧ r.shape = t.shape ∧
+         r.name = t.name ∧ r.root = t.root ∧ (d ≠ 0 → r.dflt = t.dflt) ∧
+         tensorEqB r.dflt t.dflt r t = true ∧ tensorEqB t.dflt r.dflt t r = true := by
+  refine ⟨{ rankIds := t.rankIds, shape := t.shape, name := t.name, root := t.root,
+            dflt := (if d = 0 then none else some t.dflt).getD zero }, ?_, rfl, rfl, rfl, rfl, ?_, ?_, ?_⟩
   · unfold tensorYamlRoundtrip yamlText tensorLoad tensorDump
-    simp only [hc, hs, Bool.and_self, if_true, dict2fiber_fiber2dict]
-  · simp [tensorEqB, eqB_refl]
-  · simp [tensorEqB, eqB_refl]
+    simp only [dict2fiber_fiber2dict]
+  · intro hd; simp [hd]
+  · cases d with
+    | zero => simp [tensorEqB, eqB]; rfl
+    | succ d => simp [tensorEqB, eqB_refl]
+  · cases d with
+    | zero => simp [tensorEqB, eqB]; rfl
+    | succ d => simp [tensorEqB, eqB_refl]
 
-/-- the name clause, unconditionally: whatever is loaded back carries the original's name,
-    rank ids and shape (any rank, any name) -/
-theorem tensor_yaml_name_kept (plain : κ → Bool) {d : Nat} (t : TRep κ ν d) (r : TRep κ ν d)
-    (h : tensorYamlRoundtrip plain t = some r) :
+/-- whatever is loaded back carries the original's name, rank ids and shape -/
+theorem tensor_yaml_name_kept (zero : ν) {d : Nat} (t : TRep κ ν d) (r : TRep κ ν d)
+    (h : tensorYamlRoundtrip zero t = some r) :
     r.name = t.name ∧ r.rankIds = t.rankIds ∧ r.shape = t.shape := by
   unfold tensorYamlRoundtrip yamlText tensorLoad tensorDump at h
-  split at h
-  · rename_i x hx
-    split at hx
-    · cases hx
-      simp only [dict2fiber_fiber2dict] at h
-      cases h
-      exact ⟨rfl, rfl, rfl⟩
-    · cases hx
-  · cases h
+  simp only [dict2fiber_fiber2dict] at h
+  cases h
+  exact ⟨rfl, rfl, rfl⟩
 
-/-- gap (1) is real: a tuple coordinate (or tuple shape entry) makes the load fail -/
-theorem tensor_yaml_tuple_fails (plain : κ → Bool) {d : Nat} (t : TRep κ ν d)
-    (h : allCoords plain d t.root = false ∨ t.shape.all plain = false) :
-    tensorYamlRoundtrip plain t = none := by
-  unfold tensorYamlRoundtrip yamlText
-  rcases h with h | h <;> simp [h, tensorDump]
-
-/-- `Fiber.dump` → text → `Fiber.fromYAMLfile`, PARTIAL (same gaps (1) and (3)). -/
-theorem fiber_yaml_roundtrip_partial (plain : κ → Bool) (dflt : ν) (d : Nat) (t : Tree κ ν (d + 1))
-    (hc : allCoords plain (d + 1) t = true) :
-    fiberYamlRoundtrip plain d t = some t ∧ eqB dflt dflt (d + 1) t t = true := by
+/-- `Fiber.dump` → text → `Fiber.fromYAMLfile(file, default=dflt)`: the stored tree comes back
+    and is `==` the original (every fiber of the result has the default `dflt`), for every
+    fiber, tuple coordinates included. -/
+theorem fiber_yaml_roundtrip (dflt : ν) (d : Nat) (t : Tree κ ν (d + 1)) :
+    fiberYamlRoundtrip d t = some t ∧ eqB dflt dflt (d + 1) t t = true := by
   unfold fiberYamlRoundtrip
-  simp only [hc, if_true, dict2fiber_fiber2dict, eqB_refl, and_self]
+  simp only [dict2fiber_fiber2dict, eqB_refl, and_self]
 
 end
 
 /-- the fiber `Fiber([2], [0])` -/
 def witnessStoredZero : Tree Nat Int 1 := ([(2, (0 : Int))] : List (Nat × Int))
 
-/-- gap (3) is real: a fiber with default 7 that stores a 0 is not `==` to its reloaded copy,
-    whose default is 0 (both directions). -/
-theorem default_lost_witness :
+/-- why the default has to travel with the dictionary / YAML form: under different defaults
+    (7 for the original, 0 for a copy rebuilt without it) a fiber that stores a 0 is NOT `==`
+    its own copy, in either direction. -/
+theorem default_matters_witness :
     eqB (7 : Int) 0 1 witnessStoredZero witnessStoredZero = false ∧
     eqB (0 : Int) 7 1 witnessStoredZero witnessStoredZero = false := by
   let z : Tree Nat Int 0 := (0 : Int)
@@ -470,22 +461,22 @@ example : uncompress true (0 : Int) 1 [2, 2] (fromUncompressed 0 1 exZero) = som
 example : uncompress true (7 : Int) 0 [3] (fromUncompressed 7 0 exLeaf) = some exLeaf :=
   uncompress_fromUncompressed true 7 0 [3] exLeaf (by decide) (by decide)
 
--- §3: a rank-2 tensor with an explicit default and an empty sub-fiber, plain coordinates
+-- §3: a rank-2 tensor with an explicit default and an empty sub-fiber, default 7
 def cv_exTree : Tree YCoord Int 2 :=
   ([(YCoord.int 0, ([(YCoord.int 1, (0 : Int)), (YCoord.int 2, 5)] : List (YCoord × Int))),
     (YCoord.int 3, ([] : List (YCoord × Int)))] : List (YCoord × List (YCoord × Int)))
 def exRep : TRep YCoord Int 2 :=
-  { rankIds := ["A", "B"], shape := [YCoord.int 4, YCoord.int 3], name := "T", root := cv_exTree }
-example : allCoords YCoord.plain 2 exRep.root = true ∧ exRep.shape.all YCoord.plain = true := ⟨by decide, by decide⟩
-example : ∃ r, tensorYamlRoundtrip YCoord.plain exRep = some r ∧ r.root = cv_exTree ∧ r.name = "T" := by
-  obtain ⟨r, h, _, _, hroot, hname, _⟩ := tensor_yaml_roundtrip_partial YCoord.plain (0 : Int) exRep (by decide) (by decide)
-  exact ⟨r, h, hroot, hname⟩
-/-- a flattened tensor: tuple coordinates -/
+  { rankIds := ["A", "B"], shape := [YCoord.int 4, YCoord.int 3], name := "T", root := cv_exTree, dflt := 7 }
+example : ∃ r, tensorYamlRoundtrip (0 : Int) exRep = some r ∧ r.root = cv_exTree ∧ r.name = "T" ∧ r.dflt = 7 := by
+  obtain ⟨r, h, _, _, hname, hroot, hd, _⟩ := tensor_yaml_roundtrip (0 : Int) exRep
+  exact ⟨r, h, hroot, hname, hd (by decide)⟩
+/-- a flattened tensor: tuple coordinates and a tuple shape -/
 def exTuple : TRep YCoord Int 1 :=
-  { rankIds := ["[\"A\", \"B\"]"], shape := [YCoord.tup [2, 2]], name := "",
+  { rankIds := ["[\"A\", \"B\"]"], shape := [YCoord.tup [2, 2]], name := "", dflt := 0,
     root := ([(YCoord.tup [0, 0], (1 : Int))] : List (YCoord × Int)) }
-example : tensorYamlRoundtrip YCoord.plain exTuple = none :=
-  tensor_yaml_tuple_fails YCoord.plain exTuple (Or.inl (by decide))
+example : ∃ r, tensorYamlRoundtrip (0 : Int) exTuple = some r ∧ r.root = exTuple.root ∧ r.shape = [YCoord.tup [2, 2]] := by
+  obtain ⟨r, h, _, hshape, _, hroot, _⟩ := tensor_yaml_roundtrip (0 : Int) exTuple
+  exact ⟨r, h, hroot, hshape⟩
 
 -- §4
 def exDraws : Draws := { us := [0, 1, 0], is := [3, 4, 5] }
